@@ -238,7 +238,7 @@ func c14dup(p *Program, r *Report, rule string) {
 	}
 	// the helper: true only after two names compared equal, false only after every comparison failed
 	if fn := p.Func("duplicateParam"); fn != nil {
-		p.forAllPaths(r, rule, fn, "pairwise comparison of parameter names", Opts{Unroll: 2},
+		p.forAllPaths(r, rule, fn, "pairwise comparison of parameter names", Opts{Unroll: 3},
 			"duplicateParam returns true exactly when paramName of two different elements of its argument compared equal, and false only after the pairs were exhausted",
 			func(pa *Path) (bool, string) {
 				if pa.End != "return" {
@@ -262,6 +262,12 @@ func c14dup(p *Program, r *Report, rule string) {
 				}
 				if !b && eq > 0 {
 					return false, "false although two names were equal"
+				}
+				if !b {
+					// with two or more parameters "no duplicate" is only known after comparing
+					if two, known := decidedLike(pa, "len(param:params) > 1"); known && two && len(pa.Calls("paramName")) < 2 {
+						return false, "false for two or more parameters without comparing any pair"
+					}
 				}
 				for _, pn := range pa.Calls("paramName") {
 					if !strings.HasPrefix(argKey(pn, 0), "elem(param:params") && !strings.HasPrefix(argKey(pn, 0), "elem(slice(param:params") {
